@@ -50,6 +50,8 @@ Str fmt(const char *f, ...) {
     if (n < (int)sizeof buf) return Str(buf, n < 0 ? 0 : n);
     Str big(n + 1, 0); va_start(ap, f); vsnprintf(&big[0], n + 1, f, ap); va_end(ap); big.resize(n); return big;
 }
+// for printing only (replay files keep the full text): long cases of the stretch family are cut
+static Str cutp(const Str &s, size_t n = 400) { return s.size() <= n ? s : s.substr(0, n) + fmt("...(%zu characters in all)", s.size()); }
 double now_s() { struct timespec ts; clock_gettime(CLOCK_MONOTONIC, &ts); return ts.tv_sec + ts.tv_nsec * 1e-9; }
 
 Str jkv(const Str &k, uint64_t v) { return jstr(k) + ": " + fmt("%llu", (unsigned long long)v); }
@@ -204,7 +206,7 @@ static int do_replay(const Str &path, bool quiet) {
     for (size_t i = 0; i < ctx.viols.size(); i++)
         if (ctx.viols[i].detail != ctx2.viols[i].detail || ctx.viols[i].finding != ctx2.viols[i].finding) { printf("REPLAY-NONDETERMINISTIC %s\n", path.c_str()); return 2; }
     if (!quiet) {
-        for (auto &v : ctx.viols) printf("replayed: property=%s finding=%s case=%s :: %s\n", prop.c_str(), v.finding.empty() ? "-" : v.finding.c_str(), esc(v.enc).c_str(), esc(v.detail).c_str());
+        for (auto &v : ctx.viols) printf("replayed: property=%s finding=%s case=%s :: %s\n", prop.c_str(), v.finding.empty() ? "-" : v.finding.c_str(), cutp(esc(v.enc)).c_str(), cutp(esc(v.detail), 1200).c_str());
         if (ctx.viols.empty()) printf("replayed: property=%s holds on this case\n", prop.c_str());
     }
     return ctx.viols.empty() ? 0 : 1;
@@ -291,7 +293,7 @@ int main(int argc, char **argv) {
             Str rp = fmt("%s/%s-known-%s.json", replays_dir.c_str(), id.c_str(), kv.first.c_str());
             if (!secondary) { std::ofstream o(rp.c_str()); o << replay_json(id, ex); }
             printf("KNOWN-FINDING: property=%s %s (%llu cases, e.g. %s :: %s)\n", id.c_str(), kv.first.c_str(),
-                   (unsigned long long)kv.second, esc(ex.enc).c_str(), esc(ex.detail).c_str());
+                   (unsigned long long)kv.second, cutp(esc(ex.enc)).c_str(), cutp(esc(ex.detail), 1200).c_str());
             if (!kf_json.empty()) kf_json += ", ";
             kf_json += jstr(kv.first) + ": " + fmt("%llu", (unsigned long long)kv.second);
         } else n_unknown += kv.second;
@@ -309,12 +311,12 @@ int main(int argc, char **argv) {
             if (p == 0) { execl("/proc/self/exe", argv[0], "--replay", rp.c_str(), "--quiet", (char *)0); _exit(99); }
             int stt = 0; waitpid(p, &stt, 0); confirmed++;
             if (!(WIFEXITED(stt) && WEXITSTATUS(stt) == 1)) {
-                fprintf(stderr, "HARNESS-ERROR violation did not reproduce from %s (status 0x%x): %s\n", rp.c_str(), stt, esc(v.detail).c_str());
+                fprintf(stderr, "HARNESS-ERROR violation did not reproduce from %s (status 0x%x): %s\n", rp.c_str(), stt, cutp(esc(v.detail), 1200).c_str());
                 harness_error = true;
             }
         }
         printf("VIOLATION property=%s replay=%s\n", id.c_str(), rp.c_str());
-        printf("  finding=%s case=%s :: %s\n", v.finding.empty() ? "-" : v.finding.c_str(), esc(v.enc).c_str(), esc(v.detail).c_str());
+        printf("  finding=%s case=%s :: %s\n", v.finding.empty() ? "-" : v.finding.c_str(), cutp(esc(v.enc)).c_str(), cutp(esc(v.detail), 1200).c_str());
         shown++;
     }
     if (n_unknown > (uint64_t)shown) printf("  (%llu violating cases in total; first %d shown)\n", (unsigned long long)n_unknown, shown);
